@@ -64,3 +64,43 @@ Theorem C15_inst_obj_rejection_shape :
   forall (vt : vtable) (o : cop) (w : world) (pre : str) (c : icfg) (dyn : bool) (vs : list N) (fs : list (str * inode)) (w' : world) (c' : icfg) (e : errk), apply_cop leaf lvalidate lto_python ldefault l_callable lflag (vrun vt) w pre c dyn vs fs o = (w', c', OErr e) -> match o with | CSetObj k _ => e = EAttribute \/ e = EValidation (path_join pre k) | CSetIdxObj k i _ => exists l : list icfg, dget k (c_data c) = Some (VList l) /\ (e = EIndex /\ (Datatypes.length l <= i)%nat \/ verr_below (path_index (path_join pre k) (N.of_nat (Datatypes.length l))) e) | CAppendObj k _ | CInsertObj k _ _ => exists l : list icfg, dget k (c_data c) = Some (VList l) /\ verr_below (path_index (path_join pre k) (N.of_nat (Datatypes.length l))) e | _ => True end.
 Proof. exact inst_obj_rejection_shape. Qed.
 Print Assumptions C15_inst_obj_rejection_shape.
+
+(* ---- entries of typed dict fields (DictProxy, model DictModel.v): every refusal is the validation error whose
+   reference path is "<configuration path>.<field>[<key>]" with <key> the key AS GIVEN of the FIRST offending pair in
+   the order the operation validates its pairs; the error value carries key_text k, the stream composes
+   entry_path "<configuration path>.<field>" (key_text k).  VK / VV: any key / value validators. ---- *)
+From Cinco Require Import ListModel ListModelLemmas DictModel DictModelLemmas.
+
+Theorem C15_dict_rejection_entry :
+  forall (VK VV : pyval -> res pyval) (tg : N) (s : pairs) (op : dop) (s' : pairs) (e : errk),
+    dop_validating op = true -> kw_clash op = false ->
+    proxy_dstep VK VV tg s op = (s', Err e) ->
+    exists k, first_bad VK VV (dchecked s op) = Some k /\ e = EValidation (key_text k).
+Proof. exact dict_rejection_entry. Qed.
+Print Assumptions C15_dict_rejection_entry.
+
+(* what "first offending" means: the named entry is one the operation was asked to store, it is not acceptable, and
+   every pair validated before it is acceptable -- the path never names an acceptable entry *)
+Theorem C15_dict_first_bad_spec :
+  forall (VK VV : pyval -> res pyval) (ps : pairs) (k : pyval),
+    first_bad VK VV ps = Some k ->
+    exists before v after, ps = before ++ (k, v) :: after /\
+                           forallb (pair_ok VK VV) before = true /\ pair_ok VK VV (k, v) = false.
+Proof. exact first_bad_spec. Qed.
+Print Assumptions C15_dict_first_bad_spec.
+
+(* whole-value assignment / constructor keyword / load of a plain dict (DictField._validate builds the proxy) *)
+Theorem C15_dict_init_rejection :
+  forall (VK VV : pyval -> res pyval) (items : pairs) (e : errk),
+    dp_init VK VV false items = Err e ->
+    exists k, first_bad VK VV items = Some k /\ e = EValidation (key_text k).
+Proof. exact dict_init_rejection. Qed.
+Print Assumptions C15_dict_init_rejection.
+
+(* an operation whose pairs are all acceptable never reports a validation error *)
+Theorem C15_dict_accepted_no_validation_error :
+  forall (VK VV : pyval -> res pyval) (tg : N) (s : pairs) (op : dop) (s' : pairs) (p : str),
+    kw_clash op = false -> daccepted VK VV s op = true ->
+    proxy_dstep VK VV tg s op <> (s', Err (EValidation p)).
+Proof. exact dict_accepted_no_validation_error. Qed.
+Print Assumptions C15_dict_accepted_no_validation_error.
